@@ -124,14 +124,22 @@ def check_coerce(project: Project, rep):
                                         "the metric")
     # coercion of nested lists
     param = fi.params[0]
-    co = [n for n in ast.walk(fi.node) if isinstance(n, ast.Assign) and isinstance(n.value, ast.Call)
-          and project.resolve(fi.module, n.value.func, local_names(fi.node)) in ("numpy.asarray", "numpy.array")
-          and n.value.args and isinstance(n.value.args[0], ast.Name) and n.value.args[0].id == param]
+    from .common import fn_view
+    view = fn_view(project, fi)
+    vlocs = local_names(view)
+    co = [n for n in ast.walk(view) if isinstance(n, ast.Call)
+          and project.resolve(fi.module, n.func, vlocs) in ("numpy.asarray", "numpy.array", "numpy.asanyarray", "numpy.atleast_2d")
+          and n.args and ast.unparse(expand_locals(view, n.args[0])) == param]
+    sp_v = [n for n in ast.walk(view) if isinstance(n, ast.Call)
+            and project.resolve(fi.module, n.func, vlocs) == "scipy.sparse.csgraph.shortest_path" and n.args]
     if co:
         rep.discharged("GH-COERCE", fi, co[0], "nested-list input is coerced with np.asarray before use")
+    elif sp_v and isinstance(sp_v[0].args[0], ast.Name) and sp_v[0].args[0].id == param and not any(
+            isinstance(x, ast.Name) and isinstance(x.ctx, ast.Store) and x.id == param for x in ast.walk(view)):
+        rep.refuted("GH-COERCE", fi, fi.node, "a nested-list adjacency matrix is never coerced to an array: the parameter goes to "
+                                              "shortest_path as it came", construct=f"{fi.qualname}: coercion")
     else:
-        rep.refuted("GH-COERCE", fi, fi.node, "a nested-list adjacency matrix is never coerced to an array",
-                    construct=f"{fi.qualname}: coercion")
+        rep.unmodelled("GH-COERCE", fi, fi.node, "how a nested-list adjacency matrix is coerced to an array was not recognised")
     return fi, c
 
 
@@ -282,7 +290,8 @@ def check_sym(project: Project, rep):
     from .common import expand_locals, fn_view
     fi = project.function(f"{MOD}.gromov_hausdorff")
     rep.analysed(fi)
-    f = fn_view(project, fi)
+    from .common import collapse_aliases
+    f = collapse_aliases(fn_view(project, fi))
     locs = local_names(f)
     # result matrices: names assigned np.zeros((N, N))
     mats = [n.targets[0].id for n in ast.walk(f) if isinstance(n, ast.Assign) and isinstance(n.targets[0], ast.Name)
@@ -430,6 +439,57 @@ def check_sym(project: Project, rep):
         rep.refuted("GH-SYM", fi, pair[0], f"the pair call returns {ast.unparse(pair[0].value)}: not the computed pair entry")
 
 
+def _int_test_semantics(cmpop: ast.Compare, value_name: str):
+    """constant-fold the feasibility test `value OP f(np.iinfo(T))` for the signed types: (True, None) if a type is accepted
+    only for values it can hold and for every value below its maximum; (False, why) otherwise; None if not foldable"""
+    def fold(e, env):
+        if isinstance(e, ast.Constant) and isinstance(e.value, (int, float)) and not isinstance(e.value, bool):
+            return e.value
+        if isinstance(e, ast.Name) and e.id in env:
+            return env[e.id]
+        if isinstance(e, ast.Attribute) and isinstance(e.value, ast.Call) and ast.unparse(e.value.func).endswith("iinfo") \
+                and e.attr in ("max", "min", "bits"):
+            return env["$" + e.attr]
+        if isinstance(e, ast.UnaryOp) and isinstance(e.op, ast.USub):
+            v = fold(e.operand, env)
+            return None if v is None else -v
+        if isinstance(e, ast.BinOp):
+            a, b = fold(e.left, env), fold(e.right, env)
+            if a is None or b is None:
+                return None
+            try:
+                if isinstance(e.op, ast.Add):
+                    return a + b
+                if isinstance(e.op, ast.Sub):
+                    return a - b
+                if isinstance(e.op, ast.Mult):
+                    return a * b
+                if isinstance(e.op, ast.Pow) and abs(b) <= 128:
+                    return a ** b
+                if isinstance(e.op, ast.FloorDiv) and b != 0:
+                    return a // b
+                if isinstance(e.op, ast.LShift) and 0 <= b <= 128:
+                    return a << b
+            except Exception:
+                return None
+        return None
+    ops = {ast.Lt: lambda a, b: a < b, ast.LtE: lambda a, b: a <= b, ast.Gt: lambda a, b: a > b, ast.GtE: lambda a, b: a >= b}
+    f = ops.get(type(cmpop.ops[0]))
+    if f is None:
+        return None
+    for bits in (8, 16, 32, 64):
+        mx = 2 ** (bits - 1) - 1
+        for v, want in ((0, True), (mx - 1, True), (mx + 1, False), (2 * mx + 1, False)):
+            env = {value_name: v, "$max": mx, "$min": -mx - 1, "$bits": bits}
+            a, b = fold(cmpop.left, env), fold(cmpop.comparators[0], env)
+            if a is None or b is None:
+                return None
+            if f(a, b) != want:
+                return False, (f"int{bits} is accepted for the value {v}, which it cannot hold (its maximum is {mx}): distances "
+                               f"wrap around when cast" if not want else f"int{bits} is rejected for the value {v} although it fits")
+    return True, None
+
+
 def check_int(project: Project, rep):
     fi = project.function(f"{MOD}.determine_optimal_int_type")
     rep.analysed(fi)
@@ -458,7 +518,16 @@ def check_int(project: Project, rep):
             ("not ascending" if bits != sorted(bits) else "not the signed ladder")
         rep.refuted("GH-INT", fi, f, f"integer type ladder {ladder}: {why}")
     t = ast.unparse(cmpop)
-    if isinstance(cmpop.ops[0], ast.LtE) and ".max" in ast.unparse(cmpop.comparators[0]):
+    sem = _int_test_semantics(cmpop, fi.params[0] if fi.params else "value")
+    if sem is not None:
+        ok, why = sem
+        if ok:
+            rep.discharged("GH-INT", fi, cmpop, f"`{t}` accepts a type exactly for values it can hold (constant-folded for "
+                                                f"int8…int64 at the type's maximum and just above; `<` instead of `<=` only moves the "
+                                                f"maximum itself to the next type)")
+        else:
+            rep.refuted("GH-INT", fi, cmpop, f"feasibility test `{t}`: {why}")
+    elif isinstance(cmpop.ops[0], ast.LtE) and ".max" in ast.unparse(cmpop.comparators[0]):
         rep.discharged("GH-INT", fi, cmpop, "a type is feasible iff value <= its max")
     elif isinstance(cmpop.ops[0], ast.Lt) and ".max" in ast.unparse(cmpop.comparators[0]):
         rep.discharged("GH-INT", fi, cmpop, "a type is feasible iff value < its max (a value equal to the max only moves to the "
